@@ -290,7 +290,7 @@ func check(args []string) int {
 	seenKey := map[string]int{}
 	for _, v := range violations {
 		seenKey[v.Key]++
-		if seenKey[v.Key] > 3 {
+		if seenKey[v.Key] > 1 || len(seenKey) > 40 {
 			continue
 		}
 		os.MkdirAll(rdir, 0o755)
@@ -317,8 +317,8 @@ func check(args []string) int {
 		if !s.Exhaustive {
 			exhaustive = false
 		}
-		fmt.Printf("%s/%s: executions=%d states=%d transitions=%d validated=%d nontrivial=%d undecided=%d outcomes=%d violations=%d exhaustive=%v %s\n",
-			id, s.Name, s.Executions, s.States, s.Transitions, s.Validated, s.Nontrivial, s.Undecided, len(s.Outcomes), s.ViolationCount, s.Exhaustive, s.CapHit)
+		fmt.Printf("%s/%s: executions=%d states=%d transitions=%d validated=%d nontrivial=%d undecided=%d outcomes=%d violations=%d exhaustive=%v %s wall=%.1fs\n",
+			id, s.Name, s.Executions, s.States, s.Transitions, s.Validated, s.Nontrivial, s.Undecided, len(s.Outcomes), s.ViolationCount, s.Exhaustive, s.CapHit, s.WallS)
 		for _, k := range explore.SortedKeys(s.ViolationKeys) {
 			fmt.Printf("    violation key %q: %d cases\n", k, s.ViolationKeys[k])
 		}
